@@ -49,6 +49,8 @@ type Contract struct {
 	Props       []string
 	GhostUpd    []*AnchorClause
 	Interf      []*AnchorClause
+	EnsuresContent []bool   // parallel to Ensures
+	ContentProps   []string // content mode only when verifying one of these properties (empty: always)
 	ChanInv     map[string]ast.Expr // channel class name -> invariant over "m"
 	ChanNoDrop  map[string]bool
 	Assumes     []*AnchorClause
@@ -93,6 +95,7 @@ type ContractFile struct {
 	Ghosts    []GhostVar
 	Lemmas    []*Lemma
 	Axioms    []string
+	Extends   []*Contract
 }
 
 type Lemma struct {
@@ -142,6 +145,13 @@ func parseContractFile(path, pkg string) (*ContractFile, error) {
 		}
 		lineNo := i + 1
 		fail := func(err error) error { return fmt.Errorf("%s:%d: %v", path, lineNo, err) }
+		if strings.HasPrefix(body, "extend func ") {
+			// extend func NAME: further clauses for a function whose contract is written elsewhere (merged at load)
+			name := strings.TrimSpace(strings.TrimPrefix(body, "extend func "))
+			cur = &Contract{Func: name, Pkg: pkg, File: path, Line: lineNo, LoopInv: map[int][]ast.Expr{}, LoopInvSrc: map[int][]string{}, LoopGhost: map[int][]string{}, ChanInv: map[string]ast.Expr{}}
+			cf.Extends = append(cf.Extends, cur)
+			continue
+		}
 		if m := reFunc.FindStringSubmatch(body); m != nil {
 			name := m[1]
 			cur = &Contract{Func: name, Pkg: pkg, File: path, Line: lineNo, LoopInv: map[int][]ast.Expr{}, LoopInvSrc: map[int][]string{}, LoopGhost: map[int][]string{}, ChanInv: map[string]ast.Expr{}}
@@ -226,13 +236,16 @@ func parseContractFile(path, pkg string) (*ContractFile, error) {
 			}
 			cur.Requires = append(cur.Requires, e)
 			cur.RequiresSrc = append(cur.RequiresSrc, rest)
-		case "ensures":
+		case "ensures", "content-ensures":
+			// content-ensures: a postcondition about byte contents; proved only when the function is verified in
+			// content mode and assumed only by callers that are themselves verified in content mode
 			e, err := parseExprSrc(rest)
 			if err != nil {
 				return nil, fail(err)
 			}
 			cur.Ensures = append(cur.Ensures, e)
 			cur.EnsuresSrc = append(cur.EnsuresSrc, rest)
+			cur.EnsuresContent = append(cur.EnsuresContent, word == "content-ensures")
 		case "modifies":
 			cur.HasModifies = true
 			if strings.TrimSpace(rest) != "nothing" {
@@ -336,6 +349,11 @@ func parseContractFile(path, pkg string) (*ContractFile, error) {
 		case "content":
 			// byte-content axioms for append/copy/string conversions inside this function (quantified)
 			cur.Content = true
+			for _, r := range strings.Split(rest, ",") {
+				if r = strings.TrimSpace(r); r != "" {
+					cur.ContentProps = append(cur.ContentProps, r)
+				}
+			}
 		case "function":
 			// result is a function of the arguments only (no heap reads or writes): calls are modelled by an
 			// uninterpreted function constrained by the postconditions; checked: the body must not touch the heap
@@ -403,4 +421,50 @@ func splitWord(s string) (string, string) {
 		return s, ""
 	}
 	return s[:i], strings.TrimSpace(s[i+1:])
+}
+
+// mergeExtension appends the clauses of an "extend func" block to the base contract.
+func (c *Contract) mergeExtension(x *Contract) {
+	for _, p := range x.Props {
+		if !contains(c.Props, p) {
+			c.Props = append(c.Props, p)
+		}
+	}
+	if len(c.Results) == 0 {
+		c.Results = x.Results
+	}
+	c.Requires = append(c.Requires, x.Requires...)
+	c.RequiresSrc = append(c.RequiresSrc, x.RequiresSrc...)
+	for len(c.EnsuresContent) < len(c.Ensures) {
+		c.EnsuresContent = append(c.EnsuresContent, false)
+	}
+	c.Ensures = append(c.Ensures, x.Ensures...)
+	c.EnsuresSrc = append(c.EnsuresSrc, x.EnsuresSrc...)
+	c.EnsuresContent = append(c.EnsuresContent, x.EnsuresContent...)
+	for k, v := range x.LoopInv {
+		c.LoopInv[k] = append(c.LoopInv[k], v...)
+		c.LoopInvSrc[k] = append(c.LoopInvSrc[k], x.LoopInvSrc[k]...)
+	}
+	for k, v := range x.LoopGhost {
+		c.LoopGhost[k] = append(c.LoopGhost[k], v...)
+	}
+	if x.HasModifies {
+		c.HasModifies = true
+		c.Modifies = append(c.Modifies, x.Modifies...)
+	}
+	c.Asserts = append(c.Asserts, x.Asserts...)
+	c.GhostUpd = append(c.GhostUpd, x.GhostUpd...)
+	c.Interf = append(c.Interf, x.Interf...)
+	c.Assumes = append(c.Assumes, x.Assumes...)
+	c.Vars = append(c.Vars, x.Vars...)
+	if x.Content {
+		if c.Content && len(c.ContentProps) == 0 {
+			// already unconditional
+		} else if len(x.ContentProps) == 0 {
+			c.Content, c.ContentProps = true, nil
+		} else {
+			c.Content = true
+			c.ContentProps = append(c.ContentProps, x.ContentProps...)
+		}
+	}
 }
